@@ -745,6 +745,13 @@ func (c *Ctx) globalShare() {
 					if ig := loadOfGlobal(iv); ig != nil && ig.Pkg != nil && ig.Pkg.Pkg.Path() == "crypto/rand" {
 						continue
 					}
+					// a service object without state of its own: a package-level value of a
+					// repository type none of whose methods writes through its receiver
+					// (a hasher holding its cost), assigned once by the initialiser
+					if c.statelessType(iv.Type()) {
+						r.Ok("C20.global-share", name, Short(g.Pkg.Pkg.Path())+"."+g.Name()+" stateless", posf(c, ld), "initialised once with a value whose methods do not write their receiver")
+						continue
+					}
 				}
 				n++
 				gname := Short(g.Pkg.Pkg.Path()) + "." + g.Name()
@@ -997,4 +1004,90 @@ func (c *Ctx) handlerReceiverWrites() {
 		}
 	}
 	r.Extra["pointer_receiver_handlers"] = n
+}
+
+// statelessType: t is a (pointer to a) named type of the repository and none of
+// its methods stores through the receiver, updates a map reached from it or
+// hands the receiver on.
+func (c *Ctx) statelessType(t types.Type) bool {
+	base := t
+	if p, ok := base.(*types.Pointer); ok {
+		base = p.Elem()
+	}
+	nt, ok := base.(*types.Named)
+	if !ok || nt.Obj().Pkg() == nil || c.P.ByPath[nt.Obj().Pkg().Path()] == nil {
+		return false
+	}
+	ms := c.P.SSA.MethodSets.MethodSet(types.NewPointer(nt))
+	if ms.Len() == 0 {
+		return false
+	}
+	for i := 0; i < ms.Len(); i++ {
+		fn := c.P.SSA.MethodValue(ms.At(i))
+		if fn == nil || fn.Blocks == nil {
+			return false
+		}
+		// a promoted-method wrapper delegates to the real method; read that one
+		if fn.Synthetic != "" {
+			if o, ok := fn.Object().(*types.Func); ok && o != nil {
+				if real := c.P.SSA.FuncValue(o); real != nil && real.Blocks != nil {
+					fn = real
+				}
+			}
+		}
+		if len(fn.Params) == 0 {
+			return false
+		}
+		recv := ssa.Value(fn.Params[0])
+		var fromRecv func(v ssa.Value, d int) bool
+		fromRecv = func(v ssa.Value, d int) bool {
+			if d > 8 || v == nil {
+				return false
+			}
+			if v == recv {
+				return true
+			}
+			switch x := v.(type) {
+			case *ssa.FieldAddr:
+				return fromRecv(x.X, d+1)
+			case *ssa.IndexAddr:
+				return fromRecv(x.X, d+1)
+			case *ssa.UnOp:
+				return fromRecv(x.X, d+1)
+			case *ssa.Field:
+				return fromRecv(x.X, d+1)
+			case *ssa.Alloc:
+				// a value receiver spilled into a local: a private copy
+				return false
+			}
+			return false
+		}
+		for _, b := range fn.Blocks {
+			for _, in := range b.Instrs {
+				switch x := in.(type) {
+				case *ssa.Store:
+					if fromRecv(x.Addr, 0) {
+						return false
+					}
+					if x.Val == recv {
+						return false
+					}
+				case *ssa.MapUpdate:
+					if fromRecv(x.Map, 0) {
+						return false
+					}
+				case ssa.CallInstruction:
+					for _, a := range x.Common().Args {
+						if a == recv {
+							return false
+						}
+					}
+					if x.Common().IsInvoke() && x.Common().Value == recv {
+						return false
+					}
+				}
+			}
+		}
+	}
+	return true
 }
